@@ -252,6 +252,8 @@ get_global_element(int n) {
 const InterrogateType &InterrogateDatabase::
 get_type(TypeIndex type) {
   static InterrogateType bogus_type;
+  // Not even an array of one element.
+  bogus_type._array_size = 0;
 
   check_latest();
   TypeMap::const_iterator ti;
@@ -1359,9 +1361,13 @@ find_module(FunctionWrapperIndex wrapper, InterrogateModuleDef *&def,
   int mi = binary_search_module(0, _modules.size(), wrapper);
   assert(mi >= 0 && mi < (int)_modules.size());
   def = _modules[mi];
-  module_index = wrapper - def->first_index;
 
-  return (wrapper < def->next_index);
+  // Compare before subtracting: the index may be any int at all.
+  if (wrapper < def->first_index || wrapper >= def->next_index) {
+    return false;
+  }
+  module_index = wrapper - def->first_index;
+  return true;
 }
 
 /**
